@@ -475,6 +475,24 @@ BootOk(ms, ini, bi) ==
     /\ \A i \in DOMAIN ms : ms[i].ty \in {MSG_FEATURE_SET, MSG_CS_SET_STATE, MSG_CS_DRIVE, MSG_ACCESSORY_SET, MSG_LC_OUTPUT, MSG_CS_ACCESSORY,
                                          MSG_BM_GET_RANGE, MSG_BM_ADDR_GET_RANGE} => ms[i].addr \in bi.addrs
 
+(* ---------------------------------------------------------------- shutdown (C16) *)
+(* what bidib_stop submits: soft stop to every connected track output, then "speed 0, all functions off" for every
+   train on every connected track output, then track off - each group flushed before the next *)
+StopCmds(c, ts) ==
+    LET tos == SelectSeq([i \in DOMAIN c.boards |-> c.boards[i].id], LAMBDA b : Connected(ts, b) /\ IsTrackOutput(c, b))
+        st(v) == [i \in DOMAIN tos |-> Msg(ts.addr[tos[i]], MSG_CS_SET_STATE, <<v>>)]
+        drv == LET RECURSIVE f(_, _) f(i, j) ==
+                   IF i > Len(c.trains) THEN <<>>
+                   ELSE IF j > Len(tos) THEN f(i + 1, 1)
+                   ELSE <<Msg(ts.addr[tos[j]], MSG_CS_DRIVE, <<c.trains[i].al, c.trains[i].ah, DccFormat(c.trains[i].steps), 0, 0, 0, 0, 0, 0>>)>> \o f(i, j + 1)
+               IN f(1, 1)
+    IN st(2) \o drv \o st(0)
+StopPhase(m) == IF m.ty = MSG_CS_SET_STATE /\ m.data = <<2>> THEN 1 ELSE IF m.ty = MSG_CS_DRIVE THEN 2
+                ELSE IF m.ty = MSG_CS_SET_STATE /\ m.data = <<0>> THEN 3 ELSE 0
+(* on the wire the three groups do not overlap *)
+StopPhasesOrdered(ms) == \A i, j \in DOMAIN ms : i < j /\ StopPhase(ms[i]) # 0 /\ StopPhase(ms[j]) # 0 => StopPhase(ms[i]) <= StopPhase(ms[j])
+(* the tracked state after the "all off" drive commands (observable only through results taken before: none) *)
+
 (* ------------------------------------------------- properties of a state *)
 (* C08 *)
 TrainAgreesWithSegments(c, ts) ==
